@@ -35,7 +35,7 @@ class Parser(Emitter):
             error = str(formulaserror.from_message(e))
 
         if isinstance(result, formulaserror.XLError):
-            error = str(result)
+            error = str(formulaserror.from_message(result))
             result = None
         return {'result': result, 'error': error}
 
